@@ -337,8 +337,12 @@ func (mltp MaskedLinearTransformationProtocol) applyTransformAndScale(transform 
 				bigComplex[i][1].SetInt(mask[j])
 			}
 		case ring.ConjugateInvariant:
-			for i := 1; i < slots; i++ {
-				bigComplex[i][1].Neg(bigComplex[slots-i][0])
+			// The mirrored imaginary parts belong to the representation that is decoded. Coefficients that
+			// are encoded without having been decoded are real values: their imaginary parts are zero.
+			if transform.Decode || !transform.Encode {
+				for i := 1; i < slots; i++ {
+					bigComplex[i][1].Neg(bigComplex[slots-i][0])
+				}
 			}
 		default:
 			return fmt.Errorf("cannot GenShare: invalid ring type")
